@@ -175,5 +175,5 @@ ASSUMPTIONS = ["bounds have at most microsecond precision (the documented gramma
 
 def main(tier):
     n = 3000 if tier == "quick" else 150000
-    cap = 300 if tier == "quick" else 7200
+    cap = 300 if tier == "quick" else 1500
     return engine.run_check(PROP, "c03", tier, n, cap, "exploration", RULE, ASSUMPTIONS)
